@@ -41,8 +41,11 @@ class C04(Prop):
             c.untyped = 0.2
         f = lang.gen_formula(rng, c)
         names = lang.variables(f) or [c.vars[0]]
-        return {'formula': f, 'signals': sig_text(lang.gen_signals(rng, names)),
+        case = {'formula': f, 'signals': sig_text(lang.gen_signals(rng, names)),
                 'kind': rng.choice(['ct', 'ct', 'ct_off'])}
+        if rng.random() < 0.2:
+            case['more'] = [sig_text(lang.gen_signals(rng, names))]
+        return case
 
     def judge(self, case):
         v = Verdict()
@@ -69,7 +72,8 @@ class C04(Prop):
         for o in lang.ops_of(f):
             v.info['op:' + o] = 1
         try:
-            out = drive.Mon(case.get('kind', 'ct'), {'text': text, 'vars': names}).evaluate(*drive.ct_args(sig, names))
+            mon = drive.Mon(case.get('kind', 'ct'), {'text': text, 'vars': names})
+            out = mon.evaluate(*drive.ct_args(sig, names))
         except Exception as e:
             v.bad('raises:' + type(e).__name__, '%s signals=%s: evaluate raised %s: %s' % (
                 text, case['signals'], type(e).__name__, e),
@@ -93,6 +97,28 @@ class C04(Prop):
                 text, case['signals'], float(t), o, e, out[:12], [(float(a), b) for a, b in exp.pairs()][:12]),
                 findings.c04_attribution(f, sig, 'value', out, (t, o, e), rel))
             return v
+        for s2j in case.get('more') or []:
+            # the same specification object on another set of signals
+            sig2 = sig_from_json(s2j)
+            st2 = max(s[0][0] for s in sig2.values())
+            en2 = min(s[-1][0] for s in sig2.values())
+            if en2 < st2 or set(s[0][0] for s in sig2.values()) != set([0]) or set(s[0][0] for s in sig.values()) != set([0]):
+                break              # keep this class away from the open finding D-dense-origin
+            try:
+                exp2 = ref.evaluate(f, sig2)
+                out2 = mon.evaluate(*drive.ct_args(sig2, names))
+            except refd.Undefined:
+                break
+            except Exception as e:
+                v.bad('reuse-raises:' + type(e).__name__, '%s: second evaluate() on the same object raised %s: %s' % (
+                    text, type(e).__name__, e))
+                return v
+            v.info['reused-object-evaluations'] = v.info.get('reused-object-evaluations', 0) + 1
+            bad2 = ref.compare(exp2, out2, st2, en2, same) if out2 else (st2, None, None)
+            if bad2 is not None:
+                v.bad('reuse-value', '%s: second evaluate() on the same object, signals=%s: at t=%s observed %r '
+                      'expected %r (first signals %s)' % (text, s2j, float(bad2[0]), bad2[1], bad2[2], case['signals']))
+                return v
         if out[0][0] != -refd.INF and ref.Q(out[0][0]) != start:
             v.bad('origin', '%s signals=%s: result starts at %r, common domain starts at %s' % (
                 text, case['signals'], out[0][0], float(start)),
